@@ -48,6 +48,15 @@ var badObjs = []string{"doc:", "doc", ":1", "doc:1:2", "", "folder:", "zzz:1", "
 var badRels = []string{"", "owner", "view#er", "viewer@"}
 var badUsers = []string{"user:", "*", "", "user", "group:g#", "user:a#", ":a", "user:a:b", "zzz:1", "group:g#member#x"}
 
+func inUniverse(o, r, u string) bool {
+	for _, k := range Universe {
+		if k.Obj == o && k.Rel == r && k.User == u {
+			return true
+		}
+	}
+	return false
+}
+
 func keyItem(k Key, c condv) Item {
 	return Item{Obj: k.Obj, Rel: k.Rel, User: k.User, Has: c.has, Name: c.name, Ctx: c.ctx, Valid: true}
 }
@@ -287,7 +296,8 @@ func GenWrite(r *rec.Rand, p Profile, present []TupleObs, stat func(string)) Op 
 			} else {
 				it := rec.Pick(r, op.Dels)
 				c := rec.Pick(r, validConds)
-				op.Wrs = append(op.Wrs, Item{Obj: it.Obj, Rel: it.Rel, User: it.User, Has: c.has, Name: c.name, Ctx: c.ctx, Valid: true})
+				op.Wrs = append(op.Wrs, Item{Obj: it.Obj, Rel: it.Rel, User: it.User, Has: c.has, Name: c.name, Ctx: c.ctx,
+					Valid: inUniverse(it.Obj, it.Rel, it.User)})
 				stat("key_in_writes_and_deletes")
 			}
 		}
